@@ -311,3 +311,248 @@ def obligations(tier):
         obs.append(Ob("C03.eval-script.len%d" % n, eval_short_script, "every %d-byte script (except CHECKSIG-family opcodes) on a 2-item initial stack, all flags" % n,
                       dict(n=n), weight=10 * n, max_paths=300000, deadline_s=1500))
     return obs
+
+
+# ------------------------------------------------------------------------------------------------------
+# signature / public-key encoding rules
+
+class _GenVM(object):
+    """what parse_and_check_signature_blob needs from the VM"""
+
+    def __init__(self, gen):
+        self._gen = gen
+
+    def generator_for_signature_type(self, t):
+        return self._gen
+
+
+def sigenc(ctx, shape):
+    """shape: (len_r, len_s, extra) -> blob = 30 LL 02 lr R 02 ls S hashtype with every byte symbolic
+    except that the length case split fixes the total length; or ('raw', n) for arbitrary n-byte blobs"""
+    ops = imp("pycoin.satoshi.checksigops")
+    der = imp("pycoin.satoshi.der")
+    ScriptError = imp("pycoin.coins.SolutionChecker").ScriptError
+    gen = imp("pycoin.ecdsa.secp256k1").secp256k1_generator
+    flags = ctx.sym_int("flags", 0, 0xFFFF)
+    if shape[0] == "raw":
+        blob = ctx.sym_bytes("sig", shape[1])
+    else:
+        lr, ls = shape[1], shape[2]
+        r = ctx.sym_bytes("r", lr)
+        s = ctx.sym_bytes("s", ls)
+        hdr = ctx.sym_bytes("hdr", 4)      # 30, total length, 02, len_r  (all symbolic: usually right, sometimes not)
+        mid = ctx.sym_bytes("mid", 2)      # 02, len_s
+        ht = ctx.sym_bytes("hashtype", 1)
+        blob = cat(hdr, r, mid, s, ht)
+        if shape[0] == "wellformed":
+            it = items_of(hdr)
+            mi = items_of(mid)
+            ctx.assume(sym_and(it[0] == 0x30, it[1] == lr + ls + 4, it[2] == 2, it[3] == lr, mi[0] == 2, mi[1] == ls))
+    try:
+        cs.check_signature_encoding(blob, flags)
+        ref_ok = True
+    except cs.Fail:
+        ref_ok = False
+    try:
+        ops.parse_and_check_signature_blob(blob, flags, _GenVM(gen))
+        ok = True
+    except ScriptError:
+        ok = False
+    except (der.UnexpectedDER, ValueError):
+        ok = True      # not an encoding *script error*: the caller treats the signature as simply invalid
+    if len(blob) == 0:
+        return ctx.check(True, "empty-signature-is-not-an-encoding-error")
+    ctx.known_class("F04-low-s-uses-field-prime", (flags & cs.LOW_S) != 0)
+    ctx.check(ok == ref_ok, "signature-encoding-verdict-agrees")
+
+
+def pubkeyenc(ctx, n):
+    ops = imp("pycoin.satoshi.checksigops")
+    ScriptError = imp("pycoin.coins.SolutionChecker").ScriptError
+    blob = ctx.sym_bytes("pubkey", n)
+    try:
+        ops.check_public_key_encoding(blob)
+        ok = True
+    except ScriptError:
+        ok = False
+    ctx.check(eq(ok, cs.is_compressed_or_uncompressed_pubkey(blob)), "pubkey-encoding-verdict-agrees")
+
+
+def dispatch(ctx, n):
+    """P2SH / witness-program recognition on arbitrary n-byte scripts"""
+    SC = imp("pycoin.coins.bitcoin.SolutionChecker").BitcoinSolutionChecker
+    script = ctx.sym_bytes("script", n)
+    ctx.known_class("F05-p2sh-without-0x14", sym_and(n == 23, items_of(script)[1] != 0x14) if n == 23 else False)
+    ctx.check(eq(bool(SC.is_pay_to_script_hash(script)), cs.is_p2sh(script)), "is-p2sh-agrees")
+    sc = SC(None)
+    v = sc._witness_program_version(script)
+    wp = cs.witness_program(script)
+    if wp is None:
+        ctx.check(v is None, "not-a-witness-program")
+    else:
+        ctx.check(v is not None and v == wp[0], "witness-version-agrees")
+
+
+class _Unspent(object):
+    def __init__(self, script, value=0):
+        self.script = script
+        self.coin_value = value
+
+
+def pipeline(ctx, kind, sig_items, wit_items, redeem_len=0, wscript_len=0, prog_len=None):
+    """whole check_solution vs VerifyScript on template families without signature opcodes.
+    kind: 'bare' (short arbitrary scriptPubKey), 'p2sh', 'wit' (native witness program), 'p2sh-wit'"""
+    Tx = imp("pycoin.coins.bitcoin.Tx").Tx
+    ScriptError = imp("pycoin.coins.SolutionChecker").ScriptError
+    if ctx.symbolic:
+        from symx.shims import hashlib_shim as H
+    else:
+        import hashlib as H
+    flags = ctx.sym_int("flags", 0, 0xFFFF)
+    # flag combinations Core permits: WITNESS needs P2SH, CLEANSTACK needs both
+    ctx.assume(sym_or((flags & cs.WITNESS) == 0, (flags & cs.P2SH) != 0))
+    ctx.assume(sym_or((flags & cs.CLEANSTACK) == 0, sym_and((flags & cs.P2SH) != 0, (flags & cs.WITNESS) != 0)))
+    # the flags that steer the pipeline are symbolic; flags that only matter to signature opcodes / NOPs are clear
+    PIPE_FLAGS = cs.P2SH | cs.SIGPUSHONLY | cs.MINIMALDATA | cs.CLEANSTACK | cs.WITNESS | cs.DISCOURAGE_UPGRADABLE_WITNESS_PROGRAM | cs.MINIMALIF
+    ctx.assume((flags & ~PIPE_FLAGS & 0xFFFF) == 0)
+
+    PIPE_ALPHA = [0x00, 0x51, 0x01, 0x76, 0x75, 0x87, 0x63, 0x68, 0x61, 0x74]
+
+    def nosig(b):
+        """free-form script bytes range over an opcode alphabet (single-opcode semantics are the step obligations' job)"""
+        out = []
+        for it in items_of(b):
+            ctx.assume(sym_or(*[it == a for a in PIPE_ALPHA]))
+            out.append(ctx.concretize(it))
+        return B(out)
+    witness = []
+    for k, n in enumerate(wit_items):
+        if n <= 8:
+            witness.append(ctx.sym_bytes("wit%d" % k, n))
+        else:
+            witness.append(cat(ctx.sym_bytes("wit%d" % k, 2), bytes(n - 2)))
+    wscript = None
+    if wscript_len:
+        if wscript_len <= 6:
+            wscript = nosig(ctx.sym_bytes("wscript", wscript_len))
+        else:
+            # long witness script: <filler push(es)> DROPs ... OP_1 ; only its length matters
+            body = b""
+            remaining = wscript_len - 1
+            while remaining > 0:
+                chunk = min(remaining, 523)
+                if chunk < 5:
+                    body += bytes([0x61]) * chunk   # OP_NOP
+                    remaining -= chunk
+                    continue
+                dl = chunk - 4
+                body += bytes([0x4D]) + dl.to_bytes(2, "little") + bytes(dl) + bytes([0x75])
+                remaining -= chunk
+            wscript = body + bytes([0x51])
+            assert len(wscript) == wscript_len
+        witness = witness + [wscript]
+    if kind in ("wit", "p2sh-wit"):
+        ver = ctx.sym_int("witver", 0, 16)
+        if prog_len is None:
+            program = H.sha256(wscript).digest() if wscript is not None else ctx.sym_bytes("program", 32)
+        else:
+            program = ctx.sym_bytes("program", prog_len)
+        wprog = cat(B([ite(ver == 0, 0, ver + 0x50), len(program)]), program)
+    pushes = []
+    for k, n in enumerate(sig_items):
+        pushes.append(ctx.sym_bytes("sigitem%d" % k, n))
+    if kind == "bare":
+        spk = nosig(ctx.sym_bytes("script_pubkey", redeem_len))
+        script_sig = cat(*[cs.sighash.push_of(p) for p in pushes]) if pushes else b""
+    elif kind == "p2sh":
+        redeem = nosig(ctx.sym_bytes("redeem", redeem_len))
+        h = H.new("ripemd160", H.sha256(redeem).digest()).digest() if not ctx.symbolic else H.new("ripemd160", H.sha256(redeem).digest()).digest()
+        spk = cat(B([0xA9, 0x14]), h, B([0x87]))
+        script_sig = cat(*([cs.sighash.push_of(p) for p in pushes] + [cs.sighash.push_of(redeem)]))
+    elif kind == "wit":
+        spk = wprog
+        script_sig = cat(*[cs.sighash.push_of(p) for p in pushes]) if pushes else b""
+    else:
+        h = H.new("ripemd160", H.sha256(wprog).digest()).digest()
+        spk = cat(B([0xA9, 0x14]), h, B([0x87]))
+        script_sig = cat(*([cs.sighash.push_of(p) for p in pushes] + [cs.sighash.push_of(wprog)]))
+    extra_op = ctx.choose("scriptsig_tail", ["none", "nop"]) if kind != "wit" else "none"
+    if extra_op == "nop":
+        script_sig = cat(script_sig, B([0x61]))
+    tx = Tx(1, [Tx.TxIn(b"\x11" * 32, 0, script_sig, 0xFFFFFFFF)], [Tx.TxOut(1, b"\x51")])
+    tx.txs_in[0].witness = list(witness)
+    tx.set_unspents([Tx.TxOut(5, spk)])
+    try:
+        cs.verify_script(script_sig, spk, list(witness), flags, cs.Checker())
+        ref_ok = True
+    except cs.Fail as e:
+        ref_ok = False
+    try:
+        tx.check_solution(0, flags=flags)
+        ok = True
+    except ScriptError:
+        ok = False
+    if wscript is not None and len(wscript) > 520:
+        ctx.known_class("F06-p2wsh-script-over-520", True)
+    ctx.check(ok == ref_ok, "spend-verdict-agrees-with-VerifyScript")
+
+
+def _more_obligations(tier):
+    T = tier == "thorough"
+    obs = []
+    for n in ([0, 1, 8, 9, 10] if not T else [0, 1, 2, 8, 9, 10, 11, 12]):
+        obs.append(Ob("C03.sigenc.raw%d" % n, sigenc, "every %d-byte signature blob, all 16 flags" % n, dict(shape=("raw", n)), weight=3, max_paths=50000))
+    for lr, ls in ([(1, 1), (2, 1), (1, 2), (32, 32), (33, 32), (33, 33)] if not T else [(1, 1), (2, 1), (1, 2), (2, 2), (3, 1), (31, 32), (32, 32), (33, 32), (32, 33), (33, 33), (34, 33)]):
+        if lr + ls <= (3 if not T else 4):
+          obs.append(Ob("C03.sigenc.der.r%d.s%d" % (lr, ls), sigenc, "DER-shaped blobs with %d-byte R and %d-byte S: framing bytes, integers and hash type all symbolic" % (lr, ls),
+                      dict(shape=("shaped", lr, ls)), weight=5, max_paths=50000))
+        obs.append(Ob("C03.sigenc.wellformed.r%d.s%d" % (lr, ls), sigenc, "correctly framed DER with %d-byte R, %d-byte S: R, S (low-S boundary) and hash type symbolic" % (lr, ls),
+                      dict(shape=("wellformed", lr, ls)), weight=5, max_paths=50000))
+    for n in (0, 1, 32, 33, 34, 64, 65, 66):
+        obs.append(Ob("C03.pubkeyenc.len%d" % n, pubkeyenc, "every %d-byte public key blob" % n, dict(n=n)))
+    for n in ([3, 4, 5, 22, 23, 24, 34, 42, 43] if not T else list(range(0, 45))):
+        obs.append(Ob("C03.dispatch.len%d" % n, dispatch, "every %d-byte scriptPubKey: P2SH and witness-program recognition" % n, dict(n=n)))
+    P = []
+    P.append(("bare.spk1.push1", dict(kind="bare", sig_items=[1], wit_items=[], redeem_len=1)))
+    if T:
+        P.append(("bare.spk2.push0-1", dict(kind="bare", sig_items=[0, 1], wit_items=[], redeem_len=2)))
+    P.append(("bare.spk1.witness-unexpected", dict(kind="bare", sig_items=[1], wit_items=[1], redeem_len=1)))
+    P.append(("p2sh.redeem1.push1", dict(kind="p2sh", sig_items=[1], wit_items=[], redeem_len=1)))
+    if T:
+        P.append(("p2sh.redeem2.push1-1", dict(kind="p2sh", sig_items=[1, 1], wit_items=[], redeem_len=2)))
+    P.append(("p2sh.redeem1.nopush", dict(kind="p2sh", sig_items=[], wit_items=[], redeem_len=1)))
+    for pl in (2, 20, 32, 40):
+        P.append(("wit.prog%d.items1" % pl, dict(kind="wit", sig_items=[], wit_items=[1], prog_len=pl)))
+    P.append(("wit.prog20.items0-1", dict(kind="wit", sig_items=[], wit_items=[0, 1], prog_len=20)))
+    P.append(("wit.prog32.empty-witness", dict(kind="wit", sig_items=[], wit_items=[], prog_len=32)))
+    P.append(("wit.prog32.scriptsig-not-empty", dict(kind="wit", sig_items=[1], wit_items=[1], prog_len=32)))
+    for wl in ((1,) if not T else (1, 2, 3)):
+        P.append(("p2wsh.script%d.item1" % wl, dict(kind="wit", sig_items=[], wit_items=[1], wscript_len=wl)))
+    if T:
+        P.append(("p2wsh.script2.items1-2", dict(kind="wit", sig_items=[], wit_items=[1, 2], wscript_len=2)))
+    P.append(("p2wsh.script1.item520", dict(kind="wit", sig_items=[], wit_items=[520], wscript_len=1)))
+    P.append(("p2wsh.script1.item521", dict(kind="wit", sig_items=[], wit_items=[521], wscript_len=1)))
+    for wl in (520, 521, 3000, 10000, 10001):
+        P.append(("p2wsh.script%d" % wl, dict(kind="wit", sig_items=[], wit_items=[], wscript_len=wl)))
+    P.append(("p2sh-p2wsh.script1.item1", dict(kind="p2sh-wit", sig_items=[], wit_items=[1], wscript_len=1)))
+    P.append(("p2sh-p2wsh.script1.extra-push", dict(kind="p2sh-wit", sig_items=[1], wit_items=[1], wscript_len=1)))
+    if T:
+        P.append(("p2sh-p2wsh.script2.item1", dict(kind="p2sh-wit", sig_items=[], wit_items=[1], wscript_len=2)))
+        P.append(("p2sh-p2wsh.script2.extra-push", dict(kind="p2sh-wit", sig_items=[1], wit_items=[1], wscript_len=2)))
+    P.append(("p2sh-wit.prog20.items0-1", dict(kind="p2sh-wit", sig_items=[], wit_items=[0, 1], prog_len=20)))
+    if T:
+        P.append(("p2wsh.script4.items1-1", dict(kind="wit", sig_items=[], wit_items=[1, 1], wscript_len=4)))
+        P.append(("p2sh.redeem3.push1-2", dict(kind="p2sh", sig_items=[1, 2], wit_items=[], redeem_len=3)))
+        P.append(("bare.spk3.push1-1", dict(kind="bare", sig_items=[1, 1], wit_items=[], redeem_len=3)))
+        P.append(("p2sh-p2wsh.script521", dict(kind="p2sh-wit", sig_items=[], wit_items=[], wscript_len=521)))
+    for nm, kw in P:
+        obs.append(Ob("C03.pipeline." + nm, pipeline, "template %s: all data bytes, witness version and all Core-permitted flag sets symbolic; no signature opcodes" % nm,
+                      kw, weight=8, max_paths=200000, deadline_s=1200))
+    return obs
+
+
+_base_obligations = obligations
+
+
+def obligations(tier):   # noqa: F811
+    return _base_obligations(tier) + _more_obligations(tier)
